@@ -40,7 +40,7 @@ from . import evidence, findings, tlc  # noqa: E402
 
 NPROC = int(os.environ.get("VERIF_NPROC", "16"))
 INVARIANTS = ["TypeOK", "OneWinnerPerVersion", "NoLostUpdate", "VersionChain", "LoserSeesError", "NoPhantom",
-              "RetriedOnFresh", "VersionsRestored", "RetryWins", "SomeoneWins"]
+              "RetriedOnFresh", "VersionsRestored", "RetryWins", "SomeoneWins", "CancelVsComplete"]
 PROJ_KEYS = ("status", "ver", "ctx", "out")
 
 # ------------------------------------------------------------------------------------------------
@@ -57,9 +57,10 @@ def _b(x) -> str:
 
 
 def mk(name, writers=(2, 3), txn=False, phase=False, retries=0, status=(2,), task=(3,), adds=(), aux=False,
-       busy=False, reduced=False, simulate=0, outs=None, **sw) -> dict:
+       busy=False, reduced=False, simulate=0, outs=None, ctxs=None, guarded=False, init="NOT_STARTED", **sw) -> dict:
     return {"name": name, "writers": list(writers), "txn": txn, "phase": phase, "retries": retries,
-            "outs": list(writers if outs is None else outs),
+            "outs": list(writers if outs is None else outs), "ctxs": list(writers if ctxs is None else ctxs),
+            "guarded": guarded, "init": init,
             "status": list(status), "task": list(task), "adds": list(adds), "aux": aux, "busy": busy,
             "reduced": reduced, "simulate": simulate,
             "sw": {"StageVersionCheck": True, "TaskVersionCheck": True, "MapIntegrityError": True,
@@ -69,7 +70,9 @@ def mk(name, writers=(2, 3), txn=False, phase=False, retries=0, status=(2,), tas
 def cfg_text(c: dict, root_paths: bool, invariants=()) -> str:
     lines = ["CONSTANTS",
              f"  Writers = {_set(c['writers'])}", f"  Transactional = {_b(c['txn'])}", f"  UsePhase = {_b(c['phase'])}",
-             f"  Retries = {c['retries']}", f"  AddsOut = {_set(c['outs'])}", f"  SetsStatus = {_set(c['status'])}", f"  SetsTask = {_set(c['task'])}",
+             f"  Retries = {c['retries']}", f"  AddsCtx = {_set(c.get('ctxs', c['writers']))}", f"  AddsOut = {_set(c['outs'])}",
+             f"  Guarded = {_b(c.get('guarded', False))}", f'  InitStatus = "{c.get("init", "NOT_STARTED")}"',
+             f"  SetsStatus = {_set(c['status'])}", f"  SetsTask = {_set(c['task'])}",
              f"  AddsTask = {_set(c['adds'])}", f"  AuxStage = {_b(c['aux'])}", f"  AllowBusy = {_b(c['busy'])}"]
     lines += [f"  {k} = {_b(v)}" for k, v in c["sw"].items()]
     if root_paths:
@@ -131,6 +134,10 @@ MODEL_MUTANTS = [
     ("retry re-uses the stale object, transactional", dict(FreshRetry=False), dict(retries=1, txn=True),
      {"RetriedOnFresh", "RetryWins"}),
     ("rollback_versions missing", dict(RollbackVersions=False), dict(txn=True, aux=True), {"VersionsRestored"}),
+    ("CancelStage vs CompleteTask without any version check (the cancel overwrites the saved completion)",
+     dict(StageVersionCheck=False, TaskVersionCheck=False),
+     dict(writers=(3, 4), txn=True, retries=3, status=(4,), task=(3, 4), outs=(), ctxs=(), guarded=True, init="RUNNING"),
+     {"CancelVsComplete", "NoLostUpdate"}),
 ]
 
 # ------------------------------------------------------------------------------------------------
@@ -464,7 +471,8 @@ class Replayer:
                 stage = store.retrieve_stage(sid)
                 wt.stage = stage
                 phase = stage.status.name
-                stage.context[f"k{w}"] = w
+                if w in c.get("ctxs", c["writers"]):
+                    stage.context[f"k{w}"] = w
                 if w in c["outs"]:
                     stage.outputs[f"o{w}"] = w
                 if w in c["status"]:
@@ -528,8 +536,9 @@ class Replayer:
         job = self._job(c)
         ws = {w: self.writers[w] for w in c["writers"]}
         first = "ra" if (c["aux"] and c["txn"]) else "rs"
-        init = {"st": {"status": "NOT_STARTED", "ver": 0, "ctx": ["k1"], "out": []},
-                "tk": {"t1": {"status": "NOT_STARTED", "ver": 0}},
+        i0 = c.get("init", "NOT_STARTED")
+        init = {"st": {"status": i0, "ver": 0, "ctx": ["k1"], "out": []},
+                "tk": {"t1": {"status": i0, "ver": 0}},
                 "aux": {str(w): {"ver": 0, "ctx": ["k1"]} for w in c["writers"]}}
         exp_db = init
         try:
@@ -565,9 +574,11 @@ class Replayer:
                                           f"but the store went on to '{wt.at}' ({seen})", s["r"], seen)
                 #     ... and "is retried on fresh data": after a failed attempt the model's writer re-reads the stage
                 #     (RetriedOnFresh); a writer that goes straight to its next save is retrying with the stale object
-                if s["pc"] in ("rs", "ra") and s["att"] > 1 and wt.at in ("ex", "us", "ua"):
-                    return self._fail("projection", i, f"after the failed attempt ({w}:{s['a']}:{s['r']}) writer {w} saves again ('{wt.at}') "
-                                      "without re-reading the stage: the retry works on stale data (RetriedOnFresh)", s["pc"], wt.at)
+                if s["pc"] in ("rs", "ra") and s["att"] > 1 and wt.at != s["pc"]:
+                    how = (f"reports '{wt.res}' without another attempt" if wt.at in ("done", "dc") else f"goes on to '{wt.at}'")
+                    return self._fail("projection", i, f"after the failed attempt ({w}:{s['a']}:{s['r']}) writer {w} {how} instead of "
+                                      "re-reading the stage: the save is not retried on fresh data (RetriedOnFresh / LoserSeesError)",
+                                      s["pc"], wt.at)
                 # (c) next statement of the writer / its reported result
                 if wt.at != s["pc"]:
                     return self._fail("statement", i, f"after {w}:{s['a']}:{s['r']} writer {w} is at '{wt.at}', the model at '{s['pc']}'",
